@@ -8,6 +8,9 @@ StartsMC == {-1, 0, 1}
 StartsTypes == {0, 1}
 StartsSim == {0, 1, 2, 3}
 StartsSim3 == {0, 1, 2}
+ShapesHist == {<<2>>, <<0, 2>>}
+StartsHist == {0, 1}
+LHist == {<<"contig">>, <<"chunk", 1, 1>>, <<"comp", "deflate">>, <<"blk", 8>>}
 LContig == {<<"contig">>}
 \* number types x flavours ride in the layout descriptor
 LTypes == {<<"contig", "nt", t, f>> : t \in {"int8", "uint8", "char8", "int16", "uint16", "int32", "uint32", "float32", "float64"}, f \in {"std", "le", "native"}}
